@@ -34,6 +34,8 @@ pub open spec fn binop_pg_ok(o: PgBinOper, t: Seq<char>) -> bool {
         PgBinOper::SimilarityDistance => t == "<->"@, PgBinOper::WordSimilarityDistance => t == "<<->"@, PgBinOper::StrictWordSimilarityDistance => t == "<<<->"@,
         PgBinOper::GetJsonField => t == "->"@, PgBinOper::CastJsonField => t == "->>"@,
         PgBinOper::Regex => t == "~"@, PgBinOper::RegexCaseInsensitive => t == "~*"@,
+        // pgvector (README, "Querying"): <-> L2 distance, <#> (negative) inner product, <=> cosine distance
+        PgBinOper::EuclideanDistance => t == "<->"@, PgBinOper::NegativeInnerProduct => t == "<#>"@, PgBinOper::CosineDistance => t == "<=>"@,
     }
 }
 // SQLite: GLOB, MATCH, the JSON extraction operators (json1)
@@ -93,6 +95,8 @@ pub open spec fn pgfunc_ok(p: PgFunction, t: Seq<char>) -> bool {
         PgFunction::TsRank => t == "TS_RANK"@, PgFunction::TsRankCd => t == "TS_RANK_CD"@, PgFunction::StartsWith => t == "STARTS_WITH"@,
         PgFunction::GenRandomUUID => t == "GEN_RANDOM_UUID"@, PgFunction::JsonBuildObject => t == "JSON_BUILD_OBJECT"@, PgFunction::JsonAgg => t == "JSON_AGG"@,
         PgFunction::ArrayAgg => t == "ARRAY_AGG"@, PgFunction::DateTrunc => t == "DATE_TRUNC"@,
+        // 9.24 row and array comparisons: ANY / SOME / ALL (array)
+        PgFunction::Any => t == "ANY"@, PgFunction::Some => t == "SOME"@, PgFunction::All => t == "ALL"@,
     }
 }
 // (written arm by arm: stated over the text before / after)
